@@ -168,7 +168,7 @@ def run(ctx):
     vf.write_ndjson(sp, scheds)
 
     # ---- 3. replay on the real allocator
-    binary = vf.build_gotest(ctx, "internal/streams", "internal_streams")
+    binary = vf.build_gotest(ctx, "internal/streams", ["streams"])
     tp = os.path.join(ctx.tmp, "replay_traces.ndjson")
     rc, out = vf.run_gotest(ctx, binary, "^TestVfStreamsReplay$", env={"VF_SCHEDULES": sp, "VF_TRACES": tp}, timeout=900)
     m = re.search(r"^VFSUMMARY (.*)$", out, re.M)
